@@ -311,13 +311,15 @@ def evaluate(spec, case, outcome, props=None):
                     bases.append([y for y in vv[1] if Concrete._hashable(y)])
     seen, dom_sets = set(), []
     for b in bases:
-        b = b[:7]
+        b = b[:5]
         for r in range(len(b) + 1):
             for sub in itertools.combinations(b, r):
                 key = tuple(sorted(lkey(x) for x in sub))
                 if key not in seen:
                     seen.add(key)
                     dom_sets.append(K.setof(list(sub)))
+    if len(dom_sets) * len(c.ids) > 1500:
+        return None  # too large to ground-expand within the stand-in's budget: case not evaluated
     c.set_domain = dom_sets or [c.EMPTY]
     A = Args()
     for name, kind, e in case["params"]:
